@@ -82,6 +82,7 @@ def build_facts(tier, variant):
     fx.crates = []
     fx.items = []
     fx.expanded = {}
+    fx.expanded_text_z = {}
     fx.errors = r["errors"]
     fx.artifacts = r["artifacts"]
     fx.cargo_rc = r["rc"]
@@ -91,18 +92,27 @@ def build_facts(tier, variant):
         f = os.path.join(out, c.name + c.suffix + ".expanded.rs")
         if not getattr(c, "indexed", True) or getattr(c, "expect_fail", False) or not os.path.exists(f):
             return (c, None, f)
-        return (c, util.syn_ast(f), f)
+        try:
+            return (c, util.syn_ast(f), f)
+        except CheckError as e:
+            c.expansion_error = str(e)[:300]      # the generator emitted something that is not even parseable Rust
+            return (c, None, f)
 
     todo = list(crates)
     with ThreadPoolExecutor(max_workers=12) as ex:
         results = list(ex.map(parse, todo))
     sylvia_f = os.path.join(out, "sylvia.expanded.rs")
     fx.sylvia_expanded = util.syn_ast(sylvia_f) if os.path.exists(sylvia_f) else None
+    import zlib
     for c, ast, f in results:
         key = c.name + c.suffix
+        if ast is not None:
+            with open(f, "rb") as fh:
+                fx.expanded_text_z[key] = zlib.compress(fh.read(), 3)
         info = {"name": c.name, "suffix": c.suffix, "origin": c.origin, "root": c.root, "key": key,
                 "expect_fail": getattr(c, "expect_fail", False), "expanded_file": f, "has_expansion": ast is not None,
-                "witness": getattr(c, "witness", None), "indexed": getattr(c, "indexed", True)}
+                "witness": getattr(c, "witness", None), "indexed": getattr(c, "indexed", True),
+                "expansion_error": getattr(c, "expansion_error", None)}
         fx.crates.append(info)
         fx.expanded[key] = ast
         for found in c.items:
